@@ -54,6 +54,9 @@ void error_at(char *loc, char *fmt, ...) {
   for (char *p = current_file->contents; p < loc; p++)
     if (*p == '\n')
       line_no++;
+  for (int *sp = current_file->splices; sp && *sp >= 0; sp++)
+    if (*sp <= loc - current_file->contents)
+      line_no++;
 
   va_list ap;
   va_start(ap, fmt);
@@ -469,8 +472,16 @@ void convert_pp_tokens(Token *tok) {
 static void add_line_numbers(Token *tok) {
   char *p = current_file->contents;
   int n = 1;
+  int *splice = current_file->splices;
 
   do {
+    // A removed backslash-newline in front of this character means
+    // that it stands on the next physical line.
+    while (splice && *splice >= 0 && *splice == p - current_file->contents) {
+      n++;
+      splice++;
+    }
+
     if (p == tok->loc) {
       tok->line_no = n;
       tok = tok->next;
@@ -746,31 +757,27 @@ static void canonicalize_newline(char *p) {
   p[j] = '\0';
 }
 
-// Removes backslashes followed by a newline.
-static void remove_backslash_newline(char *p) {
+// Removes backslashes followed by a newline. Returns the offsets (in
+// the resulting text) at which a line break was removed, terminated
+// by -1, so that tokens can still be given their physical line number.
+static int *remove_backslash_newline(char *p) {
   int i = 0, j = 0;
-
-  // We want to keep the number of newline characters so that
-  // the logical line number matches the physical one.
-  // This counter maintain the number of newlines we have removed.
+  int *splices = calloc(1, sizeof(int));
   int n = 0;
 
   while (p[i]) {
     if (p[i] == '\\' && p[i + 1] == '\n') {
       i += 2;
-      n++;
-    } else if (p[i] == '\n') {
-      p[j++] = p[i++];
-      for (; n > 0; n--)
-        p[j++] = '\n';
+      splices = realloc(splices, sizeof(int) * (n + 2));
+      splices[n++] = j;
     } else {
       p[j++] = p[i++];
     }
   }
 
-  for (; n > 0; n--)
-    p[j++] = '\n';
   p[j] = '\0';
+  splices[n] = -1;
+  return splices;
 }
 
 static uint32_t read_universal_char(char *p, int len) {
@@ -828,12 +835,13 @@ Token *tokenize_file(char *path) {
     p += 3;
 
   canonicalize_newline(p);
-  remove_backslash_newline(p);
   convert_universal_chars(p);
+  int *splices = remove_backslash_newline(p);
 
   // Save the filename for assembler .file directive.
   static int file_no;
   File *file = new_file(path, file_no + 1, p);
+  file->splices = splices;
 
   // Save the filename for assembler .file directive.
   input_files = realloc(input_files, sizeof(char *) * (file_no + 2));
